@@ -124,7 +124,24 @@ func scnSelection(ctx *check.JobCtx) {
 	}
 	size := int64([]int64{1000, 1_000_000, 5_000_000}[r.Intn(3)])
 	supers := r.Intn(4)
+	tight := ctx.Arg("tightsuper", "") == "1"
+	if tight {
+		n, supers = 4, 1
+	}
 	pop := buildPopulation(w, n, size, supers)
+	if tight {
+		// one super node with room for exactly ONE shard, three ordinary providers with plenty: the super node
+		// takes the first shard of an order and has no free capacity when the other shard is re-assigned
+		for i := range pop {
+			pop[i].node.Status, pop[i].node.Reputation = world.StatusAll, 10000
+			capTotal := 100 * size
+			if i == 0 {
+				capTotal = size
+			}
+			pop[i].pl.TotalStorage = capTotal
+			pop[i].pl.TotalStoragePledged = sdk.NewCoin(chain.Denom, sdk.NewDecWithPrec(1, 6).MulInt64(capTotal).Ceil().TruncateInt())
+		}
+	}
 	gwA := w.Acct("gw0")
 	funded := []*actors.Account{gwA, w.Acct("pay-owner")}
 	for _, p := range pop {
@@ -162,6 +179,10 @@ func scnSelection(ctx *check.JobCtx) {
 		}
 		replica := int32(1 + r.Intn(4))
 		pick := r.Intn(5)
+		if tight {
+			pick = 9
+			replica = 2
+		}
 		if ctx.Arg("hugepop", "") == "1" && i%2 == 0 {
 			pick = 2 // nearly the whole eligible population
 		}
@@ -182,7 +203,11 @@ func scnSelection(ctx *check.JobCtx) {
 			o := w.Cur.Orders[oid]
 			for _, sid := range o.Shards {
 				sh := w.Cur.Shards[sid]
-				if r.Intn(2) == 0 {
+				complete := r.Intn(2) == 0
+				if tight {
+					complete = sh.Sp == pop[0].acct.Addr.String()
+				}
+				if complete {
 					if p := w.ProviderByAddr(sh.Sp); p != nil {
 						w.Complete(p.Acct, nil, oid, sh.Size_)
 					}
